@@ -141,6 +141,33 @@ SplitClause(rs, ranges, sizes, u, lim, cpt) ==
 
 SplitOK(rs, ranges, sizes, u, lim, cpt) == SplitClause(rs, ranges, sizes, u, lim, cpt) = ""
 
+\* ---- THE size measure.  What "size in unit u" means is the library's own metric:
+\* SizeCalculator.Calculate(text), one number per unit (characters, tokens, words,
+\* sentences, paragraphs).  Every judgment uses that one function:
+\*  (1) a piece, measured by it in the configured unit, does not exceed a hard
+\*      character / token maximum (under the same promise as SizeBound; lib[i] is
+\*      Calculate(piece i) in the configured unit);
+\*  (2) every other accessor agrees with it on the same text: GetSize for each
+\*      unit, the metrics Check reports, and the verdicts IsAboveMax /
+\*      ExceedsLimit(Max) / Check's hard-maximum verdict (= metric > max) and
+\*      IsBelowMin (= metric < min).
+Units5 == <<"characters", "tokens", "words", "sentences", "paragraphs">>
+UnitIdx(u) == CHOOSE k \in 1..5 : Units5[k] = u
+
+LibBound(rs, lib, u, lim) ==
+    BoundPromised(rs, u, lim) => \A i \in 1..Len(lib) : lib[i] <= lim
+
+\* m: [calc, get, check: 5 numbers each; above, exceeds, checkOver, below: BOOLEAN]
+MetricClause(m, u, lim, minlim) ==
+    LET own == m.calc[UnitIdx(u)] IN
+    IF m.get # m.calc THEN "metric-getsize"
+    ELSE IF m.check # m.calc THEN "metric-check"
+    ELSE IF m.above # (own > lim) THEN "metric-isabovemax"
+    ELSE IF m.exceeds # (own > lim) THEN "metric-exceedslimit"
+    ELSE IF m.checkOver # (own > lim) THEN "metric-check-verdict"
+    ELSE IF m.below # (own < minlim) THEN "metric-isbelowmin"
+    ELSE ""
+
 \* --------------------------------------------- implementation-shaped loop
 
 \* the bytes of the text: kind of byte o (0-based) is Bytes[o + 1]
